@@ -11,6 +11,6 @@ def want(case, sig):
 
 
 def run(v, tier, seed):
-    return run_view_check(v, tier, seed, want, [viewpipe.view_results, viewpipe.header_results, viewpipe.gen_view_results],
+    return run_view_check(v, tier, seed, want, [viewpipe.view_results, viewpipe.header_results, viewpipe.gen_view_results, viewpipe.repo_view_results],
                           "one vector per encode transition (pre buffer, step, post buffer) of every explored script",
                           "StepRefines/EncodeRefines/MarginsIntact model-checked; every transition replayed against the generated accessors")
